@@ -312,4 +312,572 @@ theorem sim_dropWriter (ext : WExt) (s : WState) :
   repeat' (first | exact sim_finalize _ _ | exact sim_dropInner _ _ | wsim_step)
 
 end GW
+/-! ### The data path: `write_all` over `ZipWriter::write` over a short-writing sink / short-accepting encoder -/
+
+/-- The encoder's count is a count: at most what was offered, and not `Ok(0)` for a non-empty buffer
+(`Ok(0)` is `WriteZero` for `write_all`: "no longer able to accept bytes"). -/
+structure AccOk (acc : Bytes → Nat) : Prop where
+  le : ∀ b, acc b ≤ b.length
+  pos : ∀ b, b ≠ [] → 0 < acc b
+
+theorem MS.bind_of_ok {α β} {x : MS α} {f : α → MS β} {sch : Nat → Nat} {d d' : Dev} {a : α}
+    (h : x sch d = (.ok a, d')) : (x >>= f) sch d = f a sch d' := by
+  show (match x sch d with
+      | (.ok a, d') => f a sch d'
+      | (.err e, d') => (.err e, d')
+      | (.panic s, d') => (.panic s, d')) = _
+  rw [h]
+
+theorem MS.bind_apply {α β} (x : MS α) (f : α → MS β) (sch : Nat → Nat) (d : Dev) :
+    (x >>= f) sch d = match x sch d with
+      | (.ok a, d') => f a sch d'
+      | (.err e, d') => (.err e, d')
+      | (.panic s, d') => (.panic s, d') := rfl
+
+theorem MS.pure_apply {α} (a : α) (sch : Nat → Nat) (d : Dev) : (pure a : MS α) sch d = (.ok a, d) := rfl
+
+namespace GW
+
+/-- the writer state after the open entry took `bs` -/
+def fin (s : WState) (bs : Bytes) : WState :=
+  { s with statsHasher := Spec.Crc32.updateBytes s.statsHasher bs, statsBytes := s.statsBytes + bs.length,
+           inner := absorb s.inner bs }
+
+/-- buffer and position of the sink after the open entry took `bs` (only a plain storer reaches it) -/
+def devEff (i : Inner) (d : Dev) (bs : Bytes) : Bytes × Nat :=
+  match i with
+  | .storer none => (if bs = [] then d.buf else writeAt d.buf d.pos bs, d.pos + bs.length)
+  | _ => (d.buf, d.pos)
+
+/-- no refusal for the 4 GiB limit -/
+def Fits (s : WState) (f : FileData) (bs : Bytes) : Prop :=
+  s.statsBytes + bs.length ≤ 0xFFFFFFFF ∨ f.largeFile = true
+
+instance (s f bs) : Decidable (Fits s f bs) := by unfold Fits; infer_instance
+
+theorem absorb_append (i : Inner) (a b : Bytes) : absorb (absorb i a) b = absorb i (a ++ b) := by
+  cases i with
+  | closed => rfl
+  | storer enc => cases enc <;> simp [absorb]
+  | compressor mm l enc p => simp [absorb]
+
+theorem fin_fin (s : WState) (a b : Bytes) : fin (fin s a) b = fin s (a ++ b) := by
+  simp only [fin, absorb_append, Spec.Crc32.updateBytes_append, List.length_append, Nat.add_assoc]
+
+theorem fin_nil (s : WState) : fin s [] = s := by
+  rcases s with ⟨inner, _⟩
+  cases inner with
+  | closed => rfl
+  | storer enc => cases enc <;> simp [fin, absorb, Spec.Crc32.updateBytes_nil]
+  | compressor mm l enc p => simp [fin, absorb, Spec.Crc32.updateBytes_nil]
+
+theorem account_MS (s : WState) (f : FileData) (hf : s.files.getLast? = some f) (taken : Bytes)
+    (sch : Nat → Nat) (sd : Dev) :
+    (GW.account taken s : MS _) sch sd =
+      if s.statsBytes + taken.length ≤ 0xFFFFFFFF ∨ f.largeFile = true then
+        (.ok (.ok taken.length, { s with statsHasher := Spec.Crc32.updateBytes s.statsHasher taken, statsBytes := s.statsBytes + taken.length }), sd)
+      else (.ok (.error (.io .other), { s with statsHasher := Spec.Crc32.updateBytes s.statsHasher taken, statsBytes := s.statsBytes + taken.length, inner := .closed }), sd) := by
+  simp only [GW.account, hf]
+  by_cases h1 : s.statsBytes + taken.length ≤ 0xFFFFFFFF
+  · have : ¬ (s.statsBytes + taken.length > 4294967295) := by omega
+    simp only [h1, this, decide_false, Bool.false_and, Bool.false_eq_true, ↓reduceIte, true_or]
+    rfl
+  · have : s.statsBytes + taken.length > 4294967295 := by omega
+    cases hl : f.largeFile <;>
+      simp only [h1, this, decide_true, Bool.true_and, Bool.not_false, Bool.not_true, Bool.false_eq_true,
+        ↓reduceIte, false_or, or_true, or_false] <;> rfl
+
+/-- ONE `write` call over the short-writing device in data mode. -/
+theorem write_MS_step {acc : Bytes → Nat} (ha : AccOk acc) (s : WState) (f : FileData)
+    (hwf : s.writingToFile = true) (hx : s.writingToExtraField = false) (hcl : s.inner ≠ .closed)
+    (hf : s.files.getLast? = some f) (b : UInt8) (bs : Bytes) (sch : Nat → Nat) (sd : Dev) :
+    ∃ n sd1, 1 ≤ n ∧ n ≤ (b :: bs).length ∧ (sd1.buf, sd1.pos) = devEff s.inner sd ((b :: bs).take n) ∧
+      (GW.write acc (b :: bs) s : MS _) sch sd =
+        if Fits s f ((b :: bs).take n) then (.ok (.ok n, fin s ((b :: bs).take n)), sd1)
+        else (.ok (.error (.io .other), { fin s ((b :: bs).take n) with inner := .closed }), sd1) := by
+  rcases s with ⟨inner, files, ss, sb, sh, wf, wx, co, wr, cm⟩
+  simp only at hwf hx hcl hf
+  subst hwf hx
+  cases inner with
+  | closed => exact absurd rfl hcl
+  | storer enc =>
+    cases enc with
+    | none =>
+      generalize hk : min (b :: bs).length (max (sch sd.calls) 1) = k
+      have hk1 : 1 ≤ k ∧ k ≤ (b :: bs).length := by
+        simp only [List.length_cons] at hk ⊢; omega
+      refine ⟨k, { buf := writeAt sd.buf sd.pos ((b :: bs).take k), pos := sd.pos + k, calls := sd.calls + 1 },
+        hk1.1, hk1.2, ?_, ?_⟩
+      · have hl : ((b :: bs).take k).length = k := by rw [List.length_take]; omega
+        have hne : (b :: bs).take k ≠ [] := by
+          intro h; rw [h] at hl; simp at hl; omega
+        simp only [devEff, hne, ↓reduceIte, hl]
+      · have hw : (WriterIO.wAttempt (WriterIO.wWrite (b :: bs)) : MS _) sch sd = (.ok (.ok k),
+            { buf := writeAt sd.buf sd.pos ((b :: bs).take k), pos := sd.pos + k, calls := sd.calls + 1 }) := by
+          show MS.attempt (MS.write (b :: bs)) sch sd = _
+          simp only [MS.attempt, MS.write, shortWr, reduceCtorEq, ↓reduceIte, hk]
+        simp only [GW.write, Bool.not_true, Bool.false_eq_true, ↓reduceIte]
+        show ((WriterIO.wAttempt (WriterIO.wWrite (b :: bs)) : MS _) >>= _) sch sd = _
+        rw [MS.bind_of_ok hw]
+        have hl : ((b :: bs).take k).length = k := by rw [List.length_take]; omega
+        dsimp only
+        rw [account_MS _ f hf]
+        simp only [fin, Fits, absorb, hl]
+    | some e =>
+      refine ⟨(b :: bs).length, sd, by simp, Nat.le_refl _, rfl, ?_⟩
+      simp only [GW.write, Bool.not_true, Bool.false_eq_true, ↓reduceIte, List.take_length]
+      rw [account_MS _ f hf]
+      simp only [fin, Fits, absorb]
+  | compressor mm l enc p =>
+    have h1 := ha.le (b :: bs)
+    have h2 := ha.pos (b :: bs) (by simp)
+    refine ⟨acc (b :: bs), sd, h2, h1, rfl, ?_⟩
+    have hl : ((b :: bs).take (acc (b :: bs))).length = acc (b :: bs) := by rw [List.length_take]; omega
+    simp only [GW.write, Bool.not_true, Bool.false_eq_true, ↓reduceIte]
+    rw [account_MS _ f hf]
+    simp only [fin, Fits, absorb, hl]
+
+
+theorem fin_files (s : WState) (a : Bytes) : (fin s a).files = s.files := rfl
+theorem fin_wf (s : WState) (a : Bytes) : (fin s a).writingToFile = s.writingToFile := rfl
+theorem fin_wx (s : WState) (a : Bytes) : (fin s a).writingToExtraField = s.writingToExtraField := rfl
+theorem fin_inner (s : WState) (a : Bytes) : (fin s a).inner = absorb s.inner a := rfl
+
+theorem absorb_ne_closed {i : Inner} (h : i ≠ .closed) (a : Bytes) : absorb i a ≠ .closed := by
+  cases i with
+  | closed => exact absurd rfl h
+  | storer enc => cases enc <;> simp [absorb]
+  | compressor mm l enc p => simp [absorb]
+
+theorem fits_fin (s : WState) (f : FileData) (a rest : Bytes) :
+    Fits (fin s a) f rest ↔ Fits s f (a ++ rest) := by
+  simp only [Fits, fin, List.length_append, Nat.add_assoc]
+
+theorem fits_prefix {s : WState} {f : FileData} {a rest : Bytes} (h : Fits s f (a ++ rest)) : Fits s f a := by
+  simp only [Fits, List.length_append] at h ⊢
+  rcases h with h | h
+  · left; omega
+  · right; exact h
+
+theorem devEff_nil (i : Inner) (d : Dev) : devEff i d [] = (d.buf, d.pos) := by
+  cases i with
+  | closed => rfl
+  | storer enc => cases enc <;> simp [devEff]
+  | compressor mm l enc p => rfl
+
+theorem devEff_congr (i : Inner) {d sd : Dev} (hv : SameView d sd) (bs : Bytes) :
+    devEff i d bs = devEff i sd bs := by
+  obtain ⟨hb, hp⟩ := hv
+  cases i with
+  | closed => simp [devEff, hb, hp]
+  | compressor mm l enc p => simp [devEff, hb, hp]
+  | storer enc => cases enc <;> simp [devEff, hb, hp]
+
+theorem devEff_append (i : Inner) (d d1 : Dev) (a rest : Bytes) (ha : a ≠ [])
+    (h1 : (d1.buf, d1.pos) = devEff i d a) : devEff (absorb i a) d1 rest = devEff i d (a ++ rest) := by
+  cases i with
+  | closed => simpa [devEff, absorb] using h1
+  | compressor mm l enc p => simpa [devEff, absorb] using h1
+  | storer enc =>
+    cases enc with
+    | some e => simpa [devEff, absorb] using h1
+    | none =>
+      simp only [devEff, ha, ↓reduceIte, Prod.mk.injEq] at h1
+      obtain ⟨hb, hp⟩ := h1
+      have hne : a ++ rest ≠ [] := by simp [ha]
+      simp only [devEff, absorb, hne, ↓reduceIte, hb, hp, List.length_append, Nat.add_assoc, Prod.mk.injEq, and_true]
+      split
+      · next hr => subst hr; simp
+      · exact writeAt_split d.buf d.pos a rest
+
+/-- The caller's `write_all` loop over `ZipWriter::write`, over the short-writing device and a
+short-accepting encoder, in data mode. -/
+theorem loop_MS {acc : Bytes → Nat} (ha : AccOk acc) (f : FileData) (sch : Nat → Nat) :
+    ∀ (fuel : Nat) (buf : Bytes) (s : WState) (sd : Dev), buf.length < fuel →
+      s.writingToFile = true → s.writingToExtraField = false → s.inner ≠ .closed →
+      s.files.getLast? = some f →
+      (Fits s f buf ∨ buf = [] → ∃ sd', (GW.writeAllLoop acc fuel buf s : MS _) sch sd = (.ok (.ok (), fin s buf), sd') ∧
+        (sd'.buf, sd'.pos) = devEff s.inner sd buf) ∧
+      (¬ Fits s f buf → buf ≠ [] → ∃ s' sd',
+        (GW.writeAllLoop acc fuel buf s : MS _) sch sd = (.ok (.error (.io .other), s'), sd') ∧ s'.inner = .closed) := by
+  intro fuel
+  induction fuel with
+  | zero => intro buf s sd h; omega
+  | succ fuel ih =>
+    intro buf s sd hlen hwf hx hcl hf
+    cases buf with
+    | nil =>
+      refine ⟨fun _ => ⟨sd, ?_, (devEff_nil _ _).symm⟩, fun _ h => absurd rfl h⟩
+      rw [fin_nil]
+      rfl
+    | cons b bs =>
+      obtain ⟨n, sd1, hn1, hn2, hdev, hstep⟩ := write_MS_step ha s f hwf hx hcl hf b bs sch sd
+      have hsplit : (b :: bs).take n ++ (b :: bs).drop n = b :: bs := List.take_append_drop _ _
+      have hl : ((b :: bs).take n).length = n := by rw [List.length_take]; omega
+      have hane : (b :: bs).take n ≠ [] := by
+        intro h; rw [h] at hl; simp at hl; omega
+      have hunf : (GW.writeAllLoop acc (fuel + 1) (b :: bs) s : MS _) sch sd =
+          ((GW.write acc (b :: bs) s : MS _) >>= fun p => match p with
+            | (r, s) => match r with
+              | .error e => pure (.error e, s)
+              | .ok n => if n = 0 then pure (.error (.io .writeZero), s)
+                  else GW.writeAllLoop acc fuel ((b :: bs).drop n) s) sch sd := rfl
+      by_cases hfit : Fits s f ((b :: bs).take n)
+      · rw [if_pos hfit] at hstep
+        rw [MS.bind_of_ok hstep] at hunf
+        have hn0 : n ≠ 0 := by omega
+        simp only [hn0, ↓reduceIte] at hunf
+        have hrl : ((b :: bs).drop n).length < fuel := by
+          rw [List.length_drop]; simp only [List.length_cons] at hlen hn2 ⊢; omega
+        obtain ⟨ih1, ih2⟩ := ih ((b :: bs).drop n) (fin s ((b :: bs).take n)) sd1 hrl hwf hx
+          (absorb_ne_closed hcl _) hf
+        rw [fits_fin, hsplit] at ih1 ih2
+        rw [fin_fin, hsplit, fin_inner, devEff_append _ _ _ _ _ hane hdev, hsplit] at ih1
+        rw [hunf]
+        refine ⟨fun h => ?_, fun h _ => ?_⟩
+        · rcases h with h | h
+          · exact ih1 (Or.inl h)
+          · cases h
+        · by_cases hr : (b :: bs).drop n = []
+          · exfalso
+            rw [hr, List.append_nil] at hsplit
+            rw [hsplit] at hfit
+            exact h hfit
+          · exact ih2 h hr
+      · rw [if_neg hfit] at hstep
+        rw [MS.bind_of_ok hstep] at hunf
+        refine ⟨fun h => ?_, fun _ _ => ⟨_, sd1, hunf, rfl⟩⟩
+        rcases h with h | h
+        · rw [← hsplit] at h
+          exact absurd (fits_prefix h) hfit
+        · cases h
+
+
+/-- The model's `writeData` (whole write, whole accept) in data mode. -/
+theorem writeData_M_data (s : WState) (f : FileData)
+    (hwf : s.writingToFile = true) (hx : s.writingToExtraField = false) (hcl : s.inner ≠ .closed)
+    (hf : s.files.getLast? = some f) (b : UInt8) (bs : Bytes) (d : Dev) :
+    ∃ d', (d'.buf, d'.pos) = devEff s.inner d (b :: bs) ∧
+      Model.writeData (b :: bs) s none d =
+        if Fits s f (b :: bs) then (.ok (.ok (), fin s (b :: bs)), d')
+        else (.ok (.error (.io .other), { fin s (b :: bs) with inner := .closed }), d') := by
+  rcases s with ⟨inner, files, ss, sb, sh, wf, wx, co, wr, cm⟩
+  simp only at hwf hx hcl hf
+  subst hwf hx
+  cases inner with
+  | closed => exact absurd rfl hcl
+  | storer enc =>
+    cases enc with
+    | none =>
+      refine ⟨{ d with buf := writeAt d.buf d.pos (b :: bs), pos := d.pos + (b :: bs).length, calls := d.calls + 1 }, ?_, ?_⟩
+      · simp only [devEff, reduceCtorEq, ↓reduceIte]
+      · simp only [Model.writeData, List.isEmpty_cons, Bool.false_eq_true, ↓reduceIte, Bool.not_true, Model.io]
+        have hw : M.attempt (M.writeAll (b :: bs)) none d = (.ok (.ok ()),
+            { d with buf := writeAt d.buf d.pos (b :: bs), pos := d.pos + (b :: bs).length, calls := d.calls + 1 }) := rfl
+        rw [M.bind_of_ok hw]
+        dsimp only
+        simp only [hf, fin, Fits, absorb]
+        by_cases h1 : sb + (b :: bs).length ≤ 0xFFFFFFFF
+        · have : ¬ (sb + (b :: bs).length > 4294967295) := by omega
+          simp only [h1, this, decide_false, Bool.false_and, Bool.false_eq_true, ↓reduceIte, true_or]
+          rfl
+        · have : sb + (b :: bs).length > 4294967295 := by omega
+          rcases Bool.eq_false_or_eq_true f.largeFile with hl | hl <;>
+            simp only [hl, h1, this, decide_true, Bool.true_and, Bool.not_false, Bool.not_true, Bool.false_eq_true,
+              ↓reduceIte, false_or, or_true, or_false] <;> rfl
+    | some e =>
+      refine ⟨d, rfl, ?_⟩
+      simp only [Model.writeData, List.isEmpty_cons, Bool.false_eq_true, ↓reduceIte, Bool.not_true]
+      simp only [hf, fin, Fits, absorb]
+      by_cases h1 : sb + (b :: bs).length ≤ 0xFFFFFFFF
+      · have : ¬ (sb + (b :: bs).length > 4294967295) := by omega
+        simp only [h1, this, decide_false, Bool.false_and, Bool.false_eq_true, ↓reduceIte, true_or]
+        rfl
+      · have : sb + (b :: bs).length > 4294967295 := by omega
+        rcases Bool.eq_false_or_eq_true f.largeFile with hl | hl <;>
+          simp only [hl, h1, this, decide_true, Bool.true_and, Bool.not_false, Bool.not_true, Bool.false_eq_true,
+            ↓reduceIte, false_or, or_true, or_false] <;> rfl
+  | compressor mm l enc p =>
+    refine ⟨d, rfl, ?_⟩
+    simp only [Model.writeData, List.isEmpty_cons, Bool.false_eq_true, ↓reduceIte, Bool.not_true]
+    simp only [hf, fin, Fits, absorb]
+    by_cases h1 : sb + (b :: bs).length ≤ 0xFFFFFFFF
+    · have : ¬ (sb + (b :: bs).length > 4294967295) := by omega
+      simp only [h1, this, decide_false, Bool.false_and, Bool.false_eq_true, ↓reduceIte, true_or]
+      rfl
+    · have : sb + (b :: bs).length > 4294967295 := by omega
+      rcases Bool.eq_false_or_eq_true f.largeFile with hl | hl <;>
+        simp only [hl, h1, this, decide_true, Bool.true_and, Bool.not_false, Bool.not_true, Bool.false_eq_true,
+          ↓reduceIte, false_or, or_true, or_false] <;> rfl
+
+
+end GW
+
+/-! ### Simulation up to the 4 GiB refusal -/
+
+/-- Both runs ended the call with the large-file refusal (`write.rs` 243-250): `Err(Other)` and the
+writer closed.  (How many bytes reached the sink before the refusal depends on the schedule:
+`refusal_bytes_depend_on_schedule`.) -/
+def Refusal {β} (r r' : Except ZErr β × WState) : Prop :=
+  r.1 = .error (.io .other) ∧ r'.1 = .error (.io .other) ∧ r.2.inner = .closed ∧ r'.2.inner = .closed
+
+/-- `x` over the `Cursor`, `y` over the short-writing device with ANY schedule, from the same bytes at
+the same position: same outcome on the same bytes at the same position; or both calls were refused for
+the 4 GiB limit; or both panicked at the same site (the device of an unwinding call is not compared). -/
+def SimS {β} (x : M (Except ZErr β × WState)) (y : MS (Except ZErr β × WState)) : Prop :=
+  ∀ (sch : Nat → Nat) (d sd : Dev), SameView d sd →
+    (∃ o d' sd', x none d = (o, d') ∧ y sch sd = (o, sd') ∧ SameView d' sd') ∨
+    (∃ r r' d' sd', x none d = (.ok r, d') ∧ y sch sd = (.ok r', sd') ∧ Refusal r r') ∨
+    (∃ site d' sd', x none d = (.panic site, d') ∧ y sch sd = (.panic site, sd'))
+
+namespace SimS
+variable {α β γ : Type}
+
+theorem of_sim {x : M (Except ZErr β × WState)} {y : MS (Except ZErr β × WState)} (h : Sim x y) : SimS x y :=
+  fun sch d sd hv => Or.inl (h.elim sch d sd hv)
+
+theorem bind_sim {x : M α} {y : MS α} {f : α → M (Except ZErr β × WState)} {g : α → MS (Except ZErr β × WState)}
+    (h1 : Sim x y) (h2 : ∀ a, SimS (f a) (g a)) : SimS (x >>= f) (y >>= g) := by
+  intro sch d sd hv
+  obtain ⟨o, d1, sd1, e1, e2, hv1⟩ := h1.elim sch d sd hv
+  cases o with
+  | ok a =>
+    rw [M.bind_of_ok e1, MS.bind_of_ok e2]
+    exact h2 a sch d1 sd1 hv1
+  | err e =>
+    refine Or.inl ⟨.err e, d1, sd1, ?_, ?_, hv1⟩
+    · rw [M.bind_apply, e1]
+    · rw [MS.bind_apply, e2]
+  | panic p =>
+    refine Or.inl ⟨.panic p, d1, sd1, ?_, ?_, hv1⟩
+    · rw [M.bind_apply, e1]
+    · rw [MS.bind_apply, e2]
+
+/-- `let (r, s) ← x; match r with | Err(e) => return Err(e) | Ok(v) => k v s`. -/
+theorem tail {x : M (Except ZErr α × WState)} {y : MS (Except ZErr α × WState)}
+    {f : Except ZErr α × WState → M (Except ZErr β × WState)}
+    {g : Except ZErr α × WState → MS (Except ZErr β × WState)}
+    (h : SimS x y)
+    (hf : ∀ e s, f (.error e, s) = pure (.error e, s)) (hg : ∀ e s, g (.error e, s) = pure (.error e, s))
+    (hk : ∀ v s, SimS (f (.ok v, s)) (g (.ok v, s))) : SimS (x >>= f) (y >>= g) := by
+  intro sch d sd hv
+  have hyb : ∀ (o : Out (Except ZErr α × WState)) (sd1 : Dev), y sch sd = (o, sd1) →
+      (y >>= g) sch sd = (match o with
+        | .ok a => g a sch sd1
+        | .err e => (.err e, sd1)
+        | .panic s => (.panic s, sd1)) := by
+    intro o sd1 e2
+    rw [MS.bind_apply, e2]
+    cases o <;> rfl
+  rcases h sch d sd hv with ⟨o, d1, sd1, e1, e2, hv1⟩ | ⟨r, r', d1, sd1, e1, e2, hR⟩ | ⟨site, d1, sd1, e1, e2⟩
+  · cases o with
+    | ok a =>
+      rw [M.bind_of_ok e1, MS.bind_of_ok e2]
+      rcases a with ⟨r, s⟩
+      cases r with
+      | error e =>
+        rw [hf, hg]
+        exact Or.inl ⟨_, d1, sd1, rfl, rfl, hv1⟩
+      | ok v => exact hk v s sch d1 sd1 hv1
+    | err e =>
+      refine Or.inl ⟨.err e, d1, sd1, ?_, ?_, hv1⟩
+      · rw [M.bind_apply, e1]
+      · rw [hyb _ _ e2]
+    | panic p =>
+      refine Or.inl ⟨.panic p, d1, sd1, ?_, ?_, hv1⟩
+      · rw [M.bind_apply, e1]
+      · rw [hyb _ _ e2]
+  · rw [M.bind_of_ok e1, MS.bind_of_ok e2]
+    rcases r with ⟨r, s⟩
+    rcases r' with ⟨r', s'⟩
+    obtain ⟨h1, h2, h3, h4⟩ := hR
+    simp only at h1 h2 h3 h4
+    subst h1 h2
+    rw [hf, hg]
+    exact Or.inr (Or.inl ⟨_, _, d1, sd1, rfl, rfl, rfl, rfl, h3, h4⟩)
+  · refine Or.inr (Or.inr ⟨site, d1, sd1, ?_, ?_⟩)
+    · rw [M.bind_apply, e1]
+    · rw [hyb _ _ e2]
+
+end SimS
+
+namespace GW
+
+/-- **The data path.**  The caller's `write_all(buf)` through `ZipWriter::write` over a sink with any
+short-write schedule and an encoder with any accept counts, against the model's `writeData` (whole
+write, whole accept): same outcome, same writer state (CRC register, byte count, what the encoder /
+the ZipCrypto buffer holds), same sink bytes and position - unless the entry crosses 4 GiB without
+`large_file`, which both runs refuse. -/
+theorem simS_writeData {acc : Bytes → Nat} (ha : AccOk acc) (buf : Bytes) (s : WState) :
+    SimS (Model.writeData buf s) (GW.writeData acc buf s : MS _) := by
+  intro sch d sd hv
+  cases buf with
+  | nil => exact Or.inl ⟨.ok (.ok (), s), d, sd, rfl, rfl, hv⟩
+  | cons b bs =>
+    rcases Bool.eq_false_or_eq_true s.writingToFile with hwf | hwf
+    rotate_left
+    · refine Or.inl ⟨.ok (.error (.io .other), s), d, sd, ?_, ?_, hv⟩
+      · simp only [Model.writeData, List.isEmpty_cons, Bool.false_eq_true, ↓reduceIte, hwf, Bool.not_false]
+        rfl
+      · simp only [GW.writeData, GW.writeAllLoop, List.isEmpty_cons, Bool.false_eq_true, ↓reduceIte, GW.write, hwf,
+          Bool.not_false]
+        rfl
+    by_cases hcl : s.inner = .closed
+    · refine Or.inl ⟨.ok (.error (.io .brokenPipe), s), d, sd, ?_, ?_, hv⟩
+      · simp only [Model.writeData, List.isEmpty_cons, Bool.false_eq_true, ↓reduceIte, hwf, Bool.not_true, hcl]
+        rfl
+      · simp only [GW.writeData, GW.writeAllLoop, List.isEmpty_cons, Bool.false_eq_true, ↓reduceIte, GW.write, hwf,
+          Bool.not_true, hcl]
+        rfl
+    rcases Bool.eq_false_or_eq_true s.writingToExtraField with hx | hx
+    · -- extra-field mode: the bytes go to the open entry's extra field, no I/O
+      cases hf : s.files.getLast? with
+      | none =>
+        refine Or.inr (Or.inr ⟨"write.rs:238 files.last_mut().unwrap()", d, sd, ?_, ?_⟩)
+        · rcases s with ⟨inner, files, ss, sb, sh, wf, wx, co, wr, cm⟩
+          simp only at hwf hx hcl hf
+          subst hwf hx
+          cases inner with
+          | closed => exact absurd rfl hcl
+          | storer enc => simp only [Model.writeData, List.isEmpty_cons, Bool.false_eq_true, ↓reduceIte, Bool.not_true, hf]; rfl
+          | compressor mm l enc p => simp only [Model.writeData, List.isEmpty_cons, Bool.false_eq_true, ↓reduceIte, Bool.not_true, hf]; rfl
+        · rcases s with ⟨inner, files, ss, sb, sh, wf, wx, co, wr, cm⟩
+          simp only at hwf hx hcl hf
+          subst hwf hx
+          cases inner with
+          | closed => exact absurd rfl hcl
+          | storer enc =>
+            simp only [GW.writeData, GW.writeAllLoop, List.isEmpty_cons, Bool.false_eq_true, ↓reduceIte, GW.write, Bool.not_true, hf]; rfl
+          | compressor mm l enc p =>
+            simp only [GW.writeData, GW.writeAllLoop, List.isEmpty_cons, Bool.false_eq_true, ↓reduceIte, GW.write, Bool.not_true, hf]; rfl
+      | some f =>
+        refine Or.inl ⟨.ok (.ok (), { s with files := setLast s.files { f with extraField := f.extraField ++ (b :: bs) } }), d, sd, ?_, ?_, hv⟩
+        · rcases s with ⟨inner, files, ss, sb, sh, wf, wx, co, wr, cm⟩
+          simp only at hwf hx hcl hf
+          subst hwf hx
+          cases inner with
+          | closed => exact absurd rfl hcl
+          | storer enc => simp only [Model.writeData, List.isEmpty_cons, Bool.false_eq_true, ↓reduceIte, Bool.not_true, hf]; rfl
+          | compressor mm l enc p => simp only [Model.writeData, List.isEmpty_cons, Bool.false_eq_true, ↓reduceIte, Bool.not_true, hf]; rfl
+        · rcases s with ⟨inner, files, ss, sb, sh, wf, wx, co, wr, cm⟩
+          simp only at hwf hx hcl hf
+          subst hwf hx
+          cases inner with
+          | closed => exact absurd rfl hcl
+          | storer enc =>
+            simp only [GW.writeData, GW.writeAllLoop, List.isEmpty_cons, Bool.false_eq_true, ↓reduceIte, GW.write, Bool.not_true, hf,
+              MS.bind_apply, MS.pure_apply, List.length_cons, Nat.add_one_ne_zero, List.drop_succ_cons, List.drop_length]
+            rfl
+          | compressor mm l enc p =>
+            simp only [GW.writeData, GW.writeAllLoop, List.isEmpty_cons, Bool.false_eq_true, ↓reduceIte, GW.write, Bool.not_true, hf,
+              MS.bind_apply, MS.pure_apply, List.length_cons, Nat.add_one_ne_zero, List.drop_succ_cons, List.drop_length]
+            rfl
+    · cases hf : s.files.getLast? with
+      | none =>
+        -- no open entry in data mode (unreachable: `Inv.fileFiles`): both runs panic at `files.last_mut().unwrap()`
+        rcases s with ⟨inner, files, ss, sb, sh, wf, wx, co, wr, cm⟩
+        simp only at hwf hx hcl hf
+        subst hwf hx
+        cases inner with
+        | closed => exact absurd rfl hcl
+        | storer enc =>
+          cases enc with
+          | none =>
+            have hw : M.attempt (M.writeAll (b :: bs)) none d = (.ok (.ok ()),
+              { d with buf := writeAt d.buf d.pos (b :: bs), pos := d.pos + (b :: bs).length, calls := d.calls + 1 }) := rfl
+            obtain ⟨k, hk⟩ : ∃ k, min (b :: bs).length (max (sch sd.calls) 1) = k := ⟨_, rfl⟩
+            have hw2 : (WriterIO.wAttempt (WriterIO.wWrite (b :: bs)) : MS _) sch sd = (.ok (.ok k),
+                { buf := writeAt sd.buf sd.pos ((b :: bs).take k), pos := sd.pos + k, calls := sd.calls + 1 }) := by
+              show MS.attempt (MS.write (b :: bs)) sch sd = _
+              simp only [MS.attempt, MS.write, shortWr, reduceCtorEq, ↓reduceIte, hk]
+            refine Or.inr (Or.inr ⟨"write.rs:244 files.last_mut().unwrap()",
+              { d with buf := writeAt d.buf d.pos (b :: bs), pos := d.pos + (b :: bs).length, calls := d.calls + 1 },
+              { buf := writeAt sd.buf sd.pos ((b :: bs).take k), pos := sd.pos + k, calls := sd.calls + 1 }, ?_, ?_⟩)
+            · simp only [Model.writeData, List.isEmpty_cons, Bool.false_eq_true, ↓reduceIte, Bool.not_true, Model.io]
+              rw [M.bind_of_ok hw]
+              simp only [hf]
+              rfl
+            · simp only [GW.writeData, GW.writeAllLoop, List.isEmpty_cons, Bool.false_eq_true, ↓reduceIte, GW.write, Bool.not_true]
+              rw [MS.bind_apply, MS.bind_apply, hw2]
+              simp only [GW.account, hf]
+              rfl
+          | some e =>
+            refine Or.inr (Or.inr ⟨"write.rs:244 files.last_mut().unwrap()", d, sd, ?_, ?_⟩)
+            · simp only [Model.writeData, List.isEmpty_cons, Bool.false_eq_true, ↓reduceIte, Bool.not_true, hf]; rfl
+            · simp only [GW.writeData, GW.writeAllLoop, List.isEmpty_cons, Bool.false_eq_true, ↓reduceIte, GW.write, Bool.not_true,
+                GW.account, hf]; rfl
+        | compressor mm l enc p =>
+          refine Or.inr (Or.inr ⟨"write.rs:244 files.last_mut().unwrap()", d, sd, ?_, ?_⟩)
+          · simp only [Model.writeData, List.isEmpty_cons, Bool.false_eq_true, ↓reduceIte, Bool.not_true, hf]; rfl
+          · simp only [GW.writeData, GW.writeAllLoop, List.isEmpty_cons, Bool.false_eq_true, ↓reduceIte, GW.write, Bool.not_true,
+              GW.account, hf]; rfl
+      | some f =>
+        obtain ⟨d', hd', hM⟩ := writeData_M_data s f hwf hx hcl hf b bs d
+        obtain ⟨h1, h2⟩ := loop_MS ha f sch ((b :: bs).length + 1) (b :: bs) s sd (Nat.lt_succ_self _) hwf hx hcl hf
+        by_cases hfit : Fits s f (b :: bs)
+        · obtain ⟨sd', e, hsd'⟩ := h1 (Or.inl hfit)
+          refine Or.inl ⟨_, d', sd', by rw [hM, if_pos hfit], e, ?_⟩
+          have := devEff_congr s.inner hv (b :: bs)
+          rw [← hd', ← hsd'] at this
+          simp only [Prod.mk.injEq] at this
+          exact ⟨this.1.symm, this.2.symm⟩
+        · obtain ⟨s', sd', e, hcl'⟩ := h2 hfit (by simp)
+          exact Or.inr (Or.inl ⟨_, _, d', sd', by rw [hM, if_neg hfit], e, rfl, rfl, rfl, hcl'⟩)
+
+
+theorem simS_writeData' {acc : Bytes → Nat} (ha : AccOk acc) (buf : Bytes) (s : WState) :
+    SimS (GW.writeData (fun x => x.length) buf s : M _) (GW.writeData acc buf s : MS _) := by
+  rw [writeData_M]; exact simS_writeData ha buf s
+
+theorem simS_addSymlink {acc : Bytes → Nat} (ha : AccOk acc) (ext : WExt) (name target : Bytes) (o : FileOptions)
+    (s : WState) :
+    SimS (GW.addSymlink (fun x => x.length) ext name target o s : M _) (GW.addSymlink acc ext name target o s : MS _) := by
+  unfold GW.addSymlink
+  refine SimS.bind_sim (sim_startEntry _ _ _ _ _) ?_
+  rintro ⟨r, s⟩
+  cases r with
+  | error e => exact SimS.of_sim (Sim.pure _)
+  | ok v =>
+    refine SimS.tail (simS_writeData' ha _ _) (fun _ _ => rfl) (fun _ _ => rfl) ?_
+    intro v s
+    exact SimS.of_sim (Sim.pure _)
+
+theorem simS_rawCopy {acc : Bytes → Nat} (ha : AccOk acc) (ext : WExt) (src : FileData) (raw name : Bytes)
+    (s : WState) :
+    SimS (GW.rawCopy (fun x => x.length) ext src raw name s : M _) (GW.rawCopy acc ext src raw name s : MS _) := by
+  unfold GW.rawCopy
+  refine SimS.bind_sim (sim_startEntry _ _ _ _ _) ?_
+  rintro ⟨r, s⟩
+  cases r with
+  | error e => exact SimS.of_sim (Sim.pure _)
+  | ok v => exact simS_writeData' ha _ _
+
+theorem simS_startFileAligned {acc : Bytes → Nat} (ha : AccOk acc) (ext : WExt) (name : Bytes) (o : FileOptions)
+    (a : UInt16) (s : WState) :
+    SimS (GW.startFileAligned (fun x => x.length) ext name o a s : M _)
+      (GW.startFileAligned acc ext name o a s : MS _) := by
+  unfold GW.startFileAligned
+  refine SimS.bind_sim (sim_startFileWithExtraData _ _ _ _) ?_
+  rintro ⟨r, s⟩
+  cases r with
+  | error e => exact SimS.of_sim (Sim.pure _)
+  | ok dataStart =>
+    dsimp only
+    refine SimS.tail ?_ (fun _ _ => rfl) (fun _ _ => rfl) ?_
+    · split
+      · refine SimS.tail (simS_writeData' ha _ _) (fun _ _ => rfl) (fun _ _ => rfl) ?_
+        intro _ s
+        refine SimS.tail (simS_writeData' ha _ _) (fun _ _ => rfl) (fun _ _ => rfl) ?_
+        intro _ s
+        refine SimS.tail (simS_writeData' ha _ _) (fun _ _ => rfl) (fun _ _ => rfl) ?_
+        intro _ s
+        refine SimS.of_sim ?_
+        repeat' (first | exact sim_endLocalStartCentral _ _ | wsim_step)
+      · exact SimS.of_sim (Sim.pure _)
+    · intro _ s
+      refine SimS.of_sim ?_
+      repeat' (first | exact sim_endExtraData _ _ | wsim_step)
+
+end GW
+
 end ZipVerif.Model
